@@ -216,15 +216,19 @@ impl SearchQuery {
     }
 
     fn slice(&self, mut ids: Vec<DbId>) -> Result<Vec<DbId>, DbError> {
-        Ok(match (self.limit, self.offset) {
-            (0, 0) => ids,
-            (0, _) => ids[self.offset as usize..].to_vec(),
-            (_, 0) => {
-                ids.truncate(self.limit as usize);
-                ids
-            }
-            (_, _) => ids[self.offset as usize..(self.offset + self.limit) as usize].to_vec(),
-        })
+        // An offset or limit past the end of the result yields
+        // shorter (or empty) result rather than an error.
+        let len = ids.len() as u64;
+        let offset = std::cmp::min(self.offset, len);
+        let end = if self.limit == 0 {
+            len
+        } else {
+            std::cmp::min(offset.saturating_add(self.limit), len)
+        };
+
+        ids.truncate(end as usize);
+        ids.drain(..offset as usize);
+        Ok(ids)
     }
 
     pub(crate) fn new() -> Self {
